@@ -9,7 +9,7 @@ import collections
 import importlib
 import re
 
-PROP_GROUPS = {'C15': ['fields'], 'C01': ['flow'], 'C07': ['flow'], 'C11': ['join'], 'C02': ['join'], 'C10': ['matcher'], 'C14': ['handlers', 'vloop'], 'C17': ['rows'], 'C13': ['load']}
+PROP_GROUPS = {'C04': ['driver'], 'C15': ['fields'], 'C01': ['flow'], 'C07': ['flow'], 'C11': ['join'], 'C02': ['join'], 'C10': ['matcher'], 'C14': ['handlers', 'vloop'], 'C17': ['rows'], 'C13': ['load']}
 
 
 # ---------------------------------------------------------------- encoding
@@ -139,6 +139,8 @@ class Batch:
                     model = {'ok': [canon_pv(v) for v in m]}
                 else:
                     model = {'ok': canon_pv(m)}
+            elif op.get('want_tag') and out.get('err') == 'user':
+                model = {'err': 'user:' + out.get('tag', '?')}
             else:
                 model = {'err': MODEL_ERRS.get(out.get('err'), out.get('err'))}
             if post_model.get(fn) and 'ok' in model:
@@ -422,6 +424,159 @@ def run_fields(ctx, b, n):
     b.flush()
 
 
+def exc_pv(tag):
+    return to_pv({'__exception__': tag, 'errors': []})
+
+
+def run_driver(ctx, b, n):
+    """the exception funnel: `raise_exception`, `safe_process`, `_process` — the real methods on a processor whose
+    collaborators are fakes that return or raise on cue, against the translated methods with the same outcomes as tables"""
+    import logging
+    import tableschema
+    from dataflows import DataStreamProcessor
+    from dataflows.base.exceptions import ProcessorError
+    from dataflows.base.datastream import DataStream
+    from datapackage import Package
+    rng = ctx.rng('pycorr-driver')
+    CLS = {'ValueError': ValueError, 'KeyError': KeyError, 'CastError': tableschema.exceptions.CastError,
+           'UniqueKeyError': tableschema.exceptions.UniqueKeyError, 'ValidationError': tableschema.exceptions.ValidationError,
+           'Base:KeyboardInterrupt': KeyboardInterrupt, 'Base:GeneratorExit': GeneratorExit}
+
+    def tag_of(e):
+        if isinstance(e, ProcessorError):
+            return 'PE(%s@%s)' % (tag_of(e.cause), e.processor_position)
+        for t, c in CLS.items():
+            if type(e) is c:
+                return t
+        return type(e).__name__
+
+    def outcome(f):
+        try:
+            return {'ok': f()}
+        except BaseException as e:  # noqa
+            return {'err': 'user:' + tag_of(e)}
+
+    def mk(tag):
+        if tag.startswith('PE('):
+            return ProcessorError(ValueError('inner'), processor_name='x', processor_object=None, processor_position=7)
+        return CLS[tag]('boom')
+
+    class Step(DataStreamProcessor):
+        pass
+    SELF = opq('self', 'step')
+    old_level = logging.getLogger().level
+    logging.getLogger().setLevel(logging.CRITICAL)
+    try:
+        tags = list(CLS) + ['PE(ValueError@7)']
+        for _ in range(n):
+            pos = rng.randint(1, 9)
+            st = Step()
+            st.position = pos
+            # raise_exception
+            t = rng.choice(tags)
+            e = mk(t)
+            real = outcome(lambda: st.raise_exception(e))
+            wrapped = 'PE(%s@%s)' % (t, pos)
+            ext = [['isinstance:ProcessorError', [exc_pv(t)], to_pv(t.startswith('PE('))],
+                   ['exceptions.ProcessorError', [exc_pv(t), {'t': 'tuple', 'v': [to_pv('processor_name'), to_pv('Step')]},
+                                                  {'t': 'tuple', 'v': [to_pv('processor_object'), SELF]},
+                                                  {'t': 'tuple', 'v': [to_pv('processor_position'), to_pv(pos)]}], exc_pv(wrapped)]]
+            b.add_op({'op': 'pyeval', 'fn': 'raise_exception', 'mode': 'value', 'want_tag': True, 'ext': ext,
+                      'args': [SELF, exc_pv(t), to_pv({'__name__': 'Step'}), to_pv(pos)]}, 'raise_exception', real, case=[t, pos])
+            # safe_process: the stream has k resources, one of them may fail while it is drained; or _process itself fails
+            k = rng.randint(0, 4)
+            fail_proc = rng.choice([None, None, rng.choice(tags)])
+            fail_at = rng.randrange(k) if k and rng.random() < 0.6 else None
+            fail_tag = rng.choice(tags) if fail_at is not None else None
+            want_results = fail_proc is None and fail_at is None and rng.random() < 0.5
+
+            def resource(i):
+                yield {'i': i}
+                if i == fail_at:
+                    raise mk(fail_tag)
+                yield {'i': -i}
+
+            class DS:
+                pass
+            ds = DS()
+            ds.res_iter = (resource(i) for i in range(k))
+
+            def fake_process():
+                if fail_proc:
+                    raise mk(fail_proc)
+                return ds
+            st._process = fake_process
+            real = outcome(lambda: st.safe_process(return_results=want_results))
+            res_pvs = [to_pv([{'i': i}, {'i': -i}]) for i in range(k)]
+            ds_pv = {'t': 'dict', 'v': [[to_pv('res_iter'), {'t': 'list', 'v': res_pvs}], [to_pv('id'), opq('ds', '')]]}
+            if 'ok' in real:
+                real = {'ok': ['tuple', canon_pv(ds_pv) if real['ok'][0] is ds else 'another-object', ['list'] + [canon_py(r) for r in real['ok'][1]]]}
+            ext = [['._process', [SELF], ds_pv if not fail_proc else {'raise': fail_proc}], ['logging.error', [to_pv('%s'), to_pv('x')], to_pv(None)]]
+            kw = {'t': 'tuple', 'v': [to_pv('maxlen'), to_pv(0)]}
+            for i, rp in enumerate(res_pvs):
+                ext.append(['deque', [rp, kw], to_pv(None) if i != fail_at else {'raise': fail_tag}])
+            for t2 in tags:
+                if t2.startswith('PE('):
+                    ext.append(['.raise_exception', [SELF, exc_pv(t2)], {'raise': t2}])
+                else:
+                    ext.append(['.raise_exception', [SELF, exc_pv(t2)], {'raise': 'PE(%s@%s)' % (t2, pos)}])
+            b.add_op({'op': 'pyeval', 'fn': 'safe_process', 'mode': 'value', 'want_tag': True, 'ext': ext,
+                      'args': [SELF, to_pv(want_results), to_pv(None)]}, 'safe_process', real,
+                     post=lambda v: v, case=[k, fail_proc, fail_at, fail_tag, want_results])
+            # _process: the upstream chain, then the step's own package phase
+            up_fail = rng.choice([None, None, rng.choice(tags)])
+            pkg_fail = rng.choice([None, rng.choice(tags)])
+            st2 = Step()
+            st2.position = pos
+
+            class Src:
+                def _process(self):
+                    if up_fail:
+                        raise mk(up_fail)
+                    return DataStream(Package({'resources': []}), [], [])
+            st2.source = Src()
+
+            def pd(dp):
+                if pkg_fail:
+                    raise mk(pkg_fail)
+                return dp
+            st2.process_datapackage = pd
+            real = outcome(lambda: st2._process())
+            if 'ok' in real:
+                real = {'ok': ['str', 'ds']}
+            SRC, DESC, PKG = opq('src', ''), opq('descriptor', ''), opq('package', '')
+            up_pv = {'t': 'dict', 'v': [[to_pv('dp'), {'t': 'dict', 'v': [[to_pv('descriptor'), DESC]]}], [to_pv('stats'), to_pv([])]]}
+            ext = [['._process', [SRC], up_pv if not up_fail else {'raise': up_fail}],
+                   ['Package', [{'t': 'tuple', 'v': [to_pv('descriptor'), DESC]}], PKG],
+                   ['.process_datapackage', [SELF, PKG], PKG if not pkg_fail else {'raise': pkg_fail}],
+                   ['.commit', [PKG], to_pv(None)], ['.get_iterator', [SELF, up_pv], opq('it', '')], ['LazyIterator', [opq('it', '')], opq('lazy', '')],
+                   ['DataStream', [PKG, opq('lazy', ''), to_pv([{}])], to_pv('ds')]]
+            for t2 in tags:
+                ext.append(['.raise_exception', [SELF, exc_pv(t2)], {'raise': t2 if t2.startswith('PE(') else 'PE(%s@%s)' % (t2, pos)}])
+            b.add_op({'op': 'pyeval', 'fn': 'process_chain_step', 'mode': 'value', 'want_tag': True, 'ext': ext,
+                      'args': [SELF, SRC, to_pv({})]}, 'process_chain_step', real, post=lambda v: v, case=[up_fail, pkg_fail, pos])
+            # the default row phase: process_row of every row, the first failure ends the stream with its exception
+            rows = [{'i': i} for i in range(rng.randint(0, 5))]
+            bad_i = rng.randrange(len(rows)) if rows and rng.random() < 0.5 else None
+            bad_tag = rng.choice(['ValueError', 'KeyError', 'CastError'])
+            st3 = Step()
+
+            def pr(row):
+                if row['i'] == bad_i:
+                    raise mk(bad_tag)
+                return {'i': row['i'] * 10}
+            st3.process_row = pr
+            real = outcome(lambda: list(st3.process_resource(iter(rows))))
+            if 'ok' in real:
+                real = {'ok': canon_py(real['ok'])}
+            ext = [['.process_row', [SELF, to_pv(r)], to_pv({'i': r['i'] * 10}) if r['i'] != bad_i else {'raise': bad_tag}] for r in rows]
+            b.add_op({'op': 'pyeval', 'fn': 'default_process_resource', 'mode': 'value', 'want_tag': True, 'ext': ext,
+                      'args': [SELF, to_pv(rows)]}, 'default_process_resource', real, post=lambda v: v, case=[len(rows), bad_i])
+    finally:
+        logging.getLogger().setLevel(old_level)
+    b.flush()
+
+
 def opq(kind, v):
     return {'t': 'o', 'k': kind, 'v': v}
 
@@ -577,7 +732,7 @@ def run_flow(ctx, b, n):
     b.flush()
 
 
-RUNNERS = {'fields': run_fields, 'flow': run_flow, 'load': run_load, 'vloop': run_vloop, 'join': run_join, 'matcher': run_matcher, 'handlers': run_handlers, 'rows': run_rows}
+RUNNERS = {'driver': run_driver, 'fields': run_fields, 'flow': run_flow, 'load': run_load, 'vloop': run_vloop, 'join': run_join, 'matcher': run_matcher, 'handlers': run_handlers, 'rows': run_rows}
 
 
 def run(ctx, groups=None, n=None):
